@@ -145,8 +145,16 @@ class WindowOracle:
         if not h['R']:
             if h['id'] == m.expect_req:
                 self._r('in_window_request')
+                if len(resp) == 0:
+                    # legitimately possible: the receiver cannot verify it (e.g. it answered an older IKE_SA_INIT retry and
+                    # holds other keys).  Then it must not have been executed either.
+                    self._r('in_window_request_dropped')
+                    if changed:
+                        return self.viol('request_executed_without_response', sig_base,
+                                         f'{N}: request id {h["id"]} got no response but changed: {changed[:6]}')
+                    return
                 if len(resp) != 1:
-                    return self.viol('in_window_request_not_answered_once', dict(sig_base, replies=len(resp)),
+                    return self.viol('in_window_request_answered_twice', dict(sig_base, replies=len(resp)),
                                      f'{N}: request id {h["id"]} ({sig_base}) produced {len(resp)} responses')
                 m.expect_req += 1
                 m.last_resp = resp[0]['data']
